@@ -309,10 +309,10 @@ def deserialize_address(address, encoding=None, network=None):
             prefix = address[:address.rfind('1')]
             networks = network_by_value('prefix_bech32', prefix)
             witness_type = 'segwit' if not witver else 'taproot'
-            if len(public_key_hash) == 20:
-                script_type = 'p2wpkh'
+            if not witver:
+                script_type = 'p2wpkh' if len(public_key_hash) == 20 else 'p2wsh'
             else:
-                script_type = 'p2wsh' if not witver else 'p2tr'
+                script_type = 'p2tr'
             return {
                 'address': address,
                 'encoding': 'bech32',
